@@ -532,14 +532,29 @@ func (ch c16) runStress(c *core.Ctx, round int) {
 		select {
 		case <-closeDone:
 		case <-time.After(40 * time.Second):
-			dump, lib := core.ClassifyHang()
-			if len(lib) > 0 {
-				c.Violate("deadlock", "Close never returned under stress: "+strings.Join(lib, "; "), trim(dump, 4000), cs)
-			} else {
-				c.Inconclusive("stress: Close watchdog fired without library-blocked goroutine")
+			// nothing blocked inside the library: the goroutines are waiting for a processor (a machine with far
+			// more runnable threads than cores). A Close that is merely slow returns in the end - it gets five
+			// more minutes, looked at every twenty seconds; one that is stuck shows a blocked library goroutine
+			late := false
+			for slice := 0; slice < 16 && !late; slice++ {
+				dump, lib := core.ClassifyHang()
+				if len(lib) > 0 {
+					c.Violate("deadlock", "Close never returned under stress: "+strings.Join(lib, "; "), trim(dump, 4000), cs)
+					close(stop)
+					return
+				}
+				select {
+				case <-closeDone:
+					late = true
+				case <-time.After(20 * time.Second):
+				}
 			}
-			close(stop)
-			return
+			if !late {
+				c.Inconclusive("stress: Close watchdog fired without library-blocked goroutine")
+				close(stop)
+				return
+			}
+			c.Count("cases_not_judged_on_a_slow_machine", 1)
 		}
 	}
 	close(stop)
